@@ -7,21 +7,22 @@
 (*   src "domains"   - the lines of data/tld-domains.txt freshly produced by util/gen_utf8_pass_test.pl   *)
 (* plus "lookup" events: is_tld called on every row's label and on non-rows.                              *)
 EXTENDS Tld, Json, IOUtils, TLC
-VARIABLES l
+VARIABLES l, seen      \* seen[src] = number of row events of that program consumed so far
 
 TraceLog == ndJsonDeserialize(IOEnv.TRACE)
 N == Len(TraceLog)
 
-RowOk(ev) ==
-  LET i == ev.i IN
-  IF ev.src = "domains" THEN
-       i \in 1..NRows /\ ev.d = TldU[i] \o <<DOT>> \o TldU[i]
-  ELSE IF ev.term = 1 THEN i = NRows + 1 /\ ev.len = 0 /\ ev.type = 0          \* the { NULL, 0, 0 } terminator right after the last row
+Srcs == {"compiled", "generated", "domains"}
+RowBody(ev, i) ==
+  IF ev.src = "domains" THEN i \in 1..NRows /\ ev.d = TldU[i] \o <<DOT>> \o TldU[i]
+  ELSE IF ev.term = 1 THEN i = NRows + 1 /\ ev.len = 0 /\ ev.type = 0      \* the { NULL, 0, 0 } terminator right after the last row
   ELSE /\ i \in 1..NRows
        /\ ev.d = TldRows[i][1]                     \* same label, same order as the CSV
        /\ ev.len = Len(ev.d) + 1                   \* length = strlen + 1 (whole-label comparison)
        /\ ev.type = ClassOfRow(TldRows[i])
-CountOk(ev) == ev.n = NRows
+\* rows arrive in table order, none missing, none twice
+RowOk(ev) == ev.i = seen[ev.src] + 1 /\ RowBody(ev, ev.i)
+CountOk(ev) == ev.n = NRows /\ seen[ev.src] >= NRows
 LookupOk(ev) == ev.rc = IsTldRc(ev.in)
 EventOk(ev) ==
   CASE ev.e = "row" -> RowOk(ev)
@@ -29,7 +30,9 @@ EventOk(ev) ==
     [] ev.e = "lookup" -> LookupOk(ev)
     [] OTHER -> FALSE
 
-Init == l = IF N = 0 THEN 0 ELSE 1
-Next == l # 0 /\ l < N /\ l' = l + 1
+Bump(ev, sn) == IF ev.e = "row" THEN [sn EXCEPT ![ev.src] = @ + 1] ELSE sn
+Init == l = (IF N = 0 THEN 0 ELSE 1) /\ seen = [x \in Srcs |-> 0]
+Next == l # 0 /\ l < N /\ l' = l + 1 /\ seen' = Bump(TraceLog[l], seen)
+vars == <<l, seen>>
 Ok   == l = 0 \/ ((l = 1 => TableWellFormed) /\ (EventOk(TraceLog[l]) \/ PrintT(<<"BAD", l>>)))
 =============================================================================
